@@ -38,6 +38,10 @@ CHECKS = {
                 text="File splittings, lookups, -m/-l, globs, json/yaml/ini x all documented options.", note=TB, ref="4 C16"),
     "C17": dict(category="fault_enumeration", technique="runtime monitoring: fault injection into real CLI subprocesses (fault kinds x positions x target states, sys.monitoring failpoints via sitecustomize) observed by exit status, stdout, target bytes, audit-hook trace and strace",
                 text="The list of fault kinds is enumerated completely (x position x target state); failpoints sampled in quick, every index in thorough.", note=TB, ref="4 C17"),
+    "C18": dict(category="exploration", technique="runtime monitoring: instance monitor - every routed sample object is passed to the emitted attrs/dataclass class; attributes compared with the path-wise parse of the original / identity",
+                text="Pseudo-typed fields at Optional/List/Dict paths up to depth 3, empties and nulls x attrs/dataclasses x converters on/off.", note=TB, ref="4 C18"),
+    "C19": dict(category="exploration", technique="runtime monitoring: ast of real CLI stdout under hostile argv (quote runs, backslashes, newlines, non-ASCII in preamble, file names, patterns); nonce-tagged preamble located between imports and classes",
+                text="Hostile argv / preamble texts x frameworks x layouts through real subprocesses.", note=TB, ref="4 C19"),
 }
 NOT_YET = {}
 props = [json.loads(l) for l in open(os.path.join(HERE, "properties.jsonl"))]
